@@ -1,7 +1,9 @@
 package rules
 
 import (
+	"fmt"
 	"go/ast"
+	"go/token"
 	"go/types"
 	"sort"
 	"strings"
@@ -144,4 +146,286 @@ func c19BlankLines(c *cx, id string) {
 		c.r.Check(id, f, "empty value skipped", "G: an empty value is dropped only for field types other than text-multi (there it is a blank line of the text and must round-trip)", pos, has, "blank lines of a multi-line text are dropped by the encoder")
 	}
 	c.r.Floor(id, "empty-value tests in the field encoder", n, 1)
+}
+
+// parsedIntTruncation (E-trunc): a number parsed from text with
+// strconv.ParseUint/ParseInt is converted to a narrower integer type only if
+// the parse itself was bounded to that width (bitSize argument): otherwise
+// "257" silently becomes 1.
+func parsedIntTruncation(c *cx, id string, in func(f *eng.Fn) bool) int {
+	n := 0
+	bits := func(t types.Type) int {
+		b, ok := t.Underlying().(*types.Basic)
+		if !ok {
+			return 0
+		}
+		switch b.Kind() {
+		case types.Int8, types.Uint8:
+			return 8
+		case types.Int16, types.Uint16:
+			return 16
+		case types.Int32, types.Uint32:
+			return 32
+		case types.Int64, types.Uint64:
+			return 64
+		case types.Int, types.Uint:
+			return 32 // the narrower of the supported platforms
+		}
+		return 0
+	}
+	for _, f := range c.allFns() {
+		if f.Body == nil || !in(f) {
+			continue
+		}
+		g := f.Graph()
+		f.WalkBody(func(nd ast.Node) bool {
+			cl, ok := nd.(*ast.CallExpr)
+			if !ok || len(cl.Args) != 1 {
+				return true
+			}
+			tv, ok := f.Info().Types[cl.Fun]
+			if !ok || !tv.IsType() {
+				return true
+			}
+			tb := bits(tv.Type)
+			if tb == 0 {
+				return true
+			}
+			idn, ok := ast.Unparen(cl.Args[0]).(*ast.Ident)
+			if !ok {
+				return true
+			}
+			v, _ := f.Info().ObjectOf(idn).(*types.Var)
+			pt, okp := g.Where(cl)
+			if v == nil || !okp {
+				return true
+			}
+			for _, d := range g.ReachingDefs(v, pt) {
+				call, _ := d.RHS.(*ast.CallExpr)
+				if call == nil || d.Index != 0 {
+					continue
+				}
+				cid := f.CalleeID(call)
+				if cid != "strconv.ParseUint" && cid != "strconv.ParseInt" || len(call.Args) != 3 {
+					continue
+				}
+				n++
+				bs, isConst := f.ConstInt(call.Args[2])
+				okw := isConst && bs != 0 && int(bs) <= tb
+				c.r.Check(id, f, "parsed number narrowed to "+eng.TypeStr(tv.Type), "E-trunc: the bitSize of the parse is a constant not larger than the width of the type the result is converted to", cl.Pos(), okw, fmt.Sprintf("parsed with bitSize %d and converted to a %d-bit type: larger numbers are truncated instead of refused", bs, tb))
+			}
+			return true
+		})
+	}
+	return n
+}
+
+// decodedEntryAppended (list agreement): where a decoder fills a slice field
+// of its receiver from a temporary it has just decoded (recv.F = append(recv.F,
+// ... t ...)), every element decoded this way adds an entry: from the
+// nil-error edge of the DecodeElement into t every path to the next element
+// (or to a return) passes that append, and nothing writes an existing entry
+// from t (recv.F[i] = ..., "replace" semantics). The encoders write one
+// element per entry; a decoder that merges entries does not give back what
+// was encoded.
+func decodedEntryAppended(c *cx, id string, in func(f *eng.Fn) bool) int {
+	n := 0
+	for _, f := range c.allFns() {
+		if f.Body == nil || f.Obj == nil || !in(f) || !strings.HasPrefix(f.Obj.Name(), "UnmarshalXML") {
+			continue
+		}
+		g := f.Graph()
+		for _, cl := range f.Calls("encoding/xml.Decoder.DecodeElement") {
+			tgt := ast.Unparen(cl.Args[0])
+			if u, ok := tgt.(*ast.UnaryExpr); ok && u.Op == token.AND {
+				tgt = ast.Unparen(u.X)
+			}
+			tid, ok := tgt.(*ast.Ident)
+			if !ok {
+				continue
+			}
+			tv := f.Info().ObjectOf(tid)
+			mentionsT := func(x ast.Node) bool {
+				found := false
+				ast.Inspect(x, func(y ast.Node) bool {
+					if idn, ok := y.(*ast.Ident); ok && f.Info().ObjectOf(idn) == tv {
+						found = true
+					}
+					return !found
+				})
+				return found
+			}
+			// appends of t to a slice field of the receiver
+			var appends []ast.Node
+			var field string
+			for _, w := range f.Writes() {
+				if w.RHS == nil || !mentionsT(w.RHS) {
+					continue
+				}
+				lhs := f.Norm(w.LHS, nil)
+				if !strings.HasPrefix(lhs, "recv.") {
+					continue
+				}
+				if call, ok := ast.Unparen(w.RHS).(*ast.CallExpr); ok && f.CalleeID(call) == "builtin.append" && len(call.Args) >= 2 && f.Norm(call.Args[0], nil) == lhs {
+					appends = append(appends, w.Stmt)
+					field = lhs
+				}
+			}
+			if len(appends) == 0 {
+				// no append from t: an element-wise store from t into a list of the
+				// receiver is the "merge" form of the same defect
+				for _, w := range f.Writes() {
+					lhs := f.Norm(w.LHS, nil)
+					if w.RHS != nil && mentionsT(w.RHS) && strings.HasPrefix(lhs, "recv.") && strings.Contains(lhs, "[") {
+						n++
+						c.r.Check(id, f, "entry of "+lhs[:strings.Index(lhs, "[")]+" per decoded element", "O: every element decoded into the temporary adds one entry to the list (the encoder writes one element per entry)", w.Stmt.Pos(), false, "an existing entry is overwritten from the decoded element ("+c.p.NodeStr(w.Stmt)+"): entries are merged instead of appended")
+						break
+					}
+				}
+				continue
+			}
+			n++
+			cpt, _ := g.Where(cl)
+			cn := f.Norm(cl, &cpt)
+			isApp := func(q eng.Point, nd ast.Node) bool {
+				for _, a := range appends {
+					if nd == a {
+						return true
+					}
+				}
+				return false
+			}
+			bad := ""
+			for _, ce := range g.EdgesMatching("eq(" + cn + ",nil)") {
+				from := g.EdgeTarget(ce.E)
+				// to the next DecodeElement/Token read or to a return without the append
+				for _, rs := range g.Returns {
+					rp, _ := g.Where(rs)
+					if g.RetKindOf(rs) != eng.RetError && g.Reachable(from, rp, nil, isApp) {
+						bad = "a decoded element can reach the return at " + c.p.Pos(rs.Pos()) + " without being appended to " + field
+					}
+				}
+				if g.Reachable(from, cpt, nil, isApp) {
+					bad = "a decoded element can be followed by the next one without having been appended to " + field
+				}
+			}
+			// no element-wise store from t
+			for _, w := range f.Writes() {
+				if w.RHS != nil && mentionsT(w.RHS) && strings.HasPrefix(f.Norm(w.LHS, nil), field+"[") {
+					bad = "an existing entry of " + field + " is overwritten from the decoded element (" + c.p.NodeStr(w.Stmt) + "): entries are merged instead of appended"
+				}
+			}
+			c.r.Check(id, f, "entry of "+field+" per decoded element", "O: every element decoded into the temporary adds one entry to the list (the encoder writes one element per entry)", cl.Pos(), bad == "", bad)
+		}
+	}
+	return n
+}
+
+// qualifiedNamesStructured: an xml.Name built by an encoder carries its
+// namespace in Space: a Local that contains a colon ("xml:lang") prints the
+// same bytes through an Encoder, but as a TOKEN it is an unqualified attribute
+// with an odd name: a consumer of the token stream (xml.NewTokenDecoder, the
+// multiplexer, xmlstream transformers) does not see the xml:lang the decoder's
+// struct tag names. Both encodings of a value then decode differently.
+func qualifiedNamesStructured(c *cx, id string, in func(f *eng.Fn) bool) int {
+	n := 0
+	for _, f := range c.allFns() {
+		if f.Body == nil || !in(f) {
+			continue
+		}
+		for _, cl := range f.WalkLits("encoding/xml.Name") {
+			lv := structLitField(cl, "Local")
+			if lv == nil {
+				continue
+			}
+			sv, ok := f.ConstStr(lv)
+			if !ok {
+				continue
+			}
+			n++
+			c.r.Check(id, f, "name literal "+sv, "K: the Local of an xml.Name literal holds no prefix (namespaces go into Space)", cl.Pos(), !strings.Contains(sv, ":"), "Local \""+sv+"\" hard-codes a prefix: the token is an unqualified name, not the namespaced one the decoder expects")
+		}
+	}
+	return n
+}
+
+// emissionGatedBySibling: in an encoder, the value of a receiver field F is
+// written under presence tests of F itself (or unconditionally, or under a
+// disjunction that includes F's own presence): a dominating fact that is a
+// plain presence test of ANOTHER field G (G != "", len(G) > 0, G != nil) and
+// does not mention F makes F's emission depend on G being set: a value with F
+// but without G loses F on the round trip.
+// gatedExempt: field F is by its meaning an attribute OF field G's element.
+var gatedExempt = map[string]string{
+	"internal/saslerr.Error.TokenReader|Lang|Text": "Lang is the xml:lang of the <text/> element: without a text there is no element to carry it",
+}
+
+func emissionGatedBySibling(c *cx, id string, in func(f *eng.Fn) bool) int {
+	n := 0
+	presenceOf := func(atom string) string {
+		// returns the receiver field a plain presence atom tests, or ""
+		for _, pre := range []string{`!eq(recv.`, `lt(0,builtin.len(recv.`} {
+			if strings.HasPrefix(atom, pre) {
+				rest := atom[len(pre):]
+				end := strings.IndexAny(rest, ",)[.")
+				if end > 0 {
+					fld := rest[:end]
+					tail := rest[end:]
+					if pre == `!eq(recv.` && (tail == `,"")` || tail == `,nil)`) {
+						return fld
+					}
+					if pre != `!eq(recv.` && tail == `))` {
+						return fld
+					}
+				}
+			}
+		}
+		return ""
+	}
+	for _, f := range c.allFns() {
+		if f.Body == nil || f.Obj == nil || !in(f) {
+			continue
+		}
+		switch f.Obj.Name() {
+		case "TokenReader", "WriteXML", "MarshalXML", "Wrap":
+		default:
+			continue
+		}
+		g := f.Graph()
+		f.WalkBody(func(nd ast.Node) bool {
+			sel, ok := nd.(*ast.SelectorExpr)
+			if !ok {
+				return true
+			}
+			x := f.Norm(sel, nil)
+			if !strings.HasPrefix(x, "recv.") || strings.Count(x, ".") != 1 {
+				return true
+			}
+			if s := f.Info().Selections[sel]; s == nil || s.Kind() != types.FieldVal {
+				return true
+			}
+			fld := strings.TrimPrefix(x, "recv.")
+			pt, okp := g.Where(sel)
+			if !okp {
+				return true
+			}
+			// only uses that are not themselves part of a condition
+			if _, isCond := g.Blocks[pt.B].Nodes[pt.I].(ast.Expr); isCond {
+				return true
+			}
+			n++
+			bad := ""
+			for _, a := range g.FactsAt(pt) {
+				if other := presenceOf(a); other != "" && other != fld {
+					if _, ok := gatedExempt[f.Short+"|"+fld+"|"+other]; ok {
+						continue
+					}
+					bad = "the use of " + x + " is dominated by the presence test " + a + " of another field: a value that has " + fld + " but not " + other + " is encoded without " + fld
+				}
+			}
+			c.r.Check(id, f, "use of "+x, "G: no plain presence test of another receiver field dominates the use of a field's value in an encoder", sel.Pos(), bad == "", bad)
+			return true
+		})
+	}
+	return n
 }
